@@ -4,7 +4,8 @@ From Coq Require Import List Bool Arith Lia.
 Import ListNotations.
 Require Import NV.C27.Model NV.C27.Proofs.
 
-(* Every configuration that meets the documented preconditions -- at least one iteration, resume
+(* Every configuration that meets the documented preconditions -- initial_index < total_iterations
+   (with an output directory a positive initial_index continues an earlier call into it), resume
    only with an output directory, an inspect callback of one or two parameters (or none), no
    samples without a sampling controller, fresh stochasticity in iteration 0, and, when resuming,
    a directory left by a completed iteration -- runs to completion: for every number of
@@ -126,6 +127,25 @@ Proof. exact each_fix_needed. Qed.
 
 (* ---- non-vacuity: a valid configuration with output directory, resume from a directory left by
         iteration 0 of a two-sample run, termination by callback; the model returns, balanced ---- *)
+(* a second call that continues the numbering of an earlier one (initial_index = 2 of 4, strategy
+   "all", directory filled up to iteration 1): valid, returns, balanced, writes iteration_2/3 files *)
+Example C27_initial_index_example :
+  let o := mkOpts 4 (fun _ => 1) true true true false false false true false (fun _ => true) false
+                  (fun _ => false) 2 (fun _ => false) false false 2 in
+  let e := mkEnv 1 [FRandomState; FLast; FSample (Iter 1) 0; FSample (Iter 1) 1; FMean (Iter 1);
+                    FEnergyHist (Iter 1); FMinisanityHist (Iter 1); FMinisanityTxt; FCounting] (Some 1) 1 false false in
+  valid o e /\
+  match run fixed o e with
+  | Ok r => r_depth r = 1 /\ r_n r = 2 /\ has (r_files r) (FSample (Iter 3) 1) = true /\
+            has (r_files r) (FMinisanityHist (Iter 2)) = true /\
+            r_acts r = [APush 2; AMinimise 2 1; AInspect 2 2; APop; APush 3; AMinimise 3 1; AInspect 3 2; APop]
+  | Err _ => False
+  end.
+Proof.
+  split; [|vm_compute; auto 10].
+  unfold valid; cbn. repeat split; auto; try lia; try discriminate.
+Qed.
+
 Example C27_valid_resume_example :
   let o := mkOpts 3 (fun _ => 2) true true false true true true true false (fun i => negb (i =? 1)) true
                   (fun i => i =? 1) 1 (fun i => i =? 1) true true 0 in
